@@ -304,6 +304,19 @@ def c15_refusals(rep, d, inputs):
         (["ctr", "-i", fa, "-k", "21", "-m", "5"], "dir"), (["ctr", "-i", fa, "-k", "21", "-m", "129"], "dir"),
         (["ctr", "-i", fa], "dir"),
     ]
+    # values that would fall into the range if they were narrowed to 8, 16 or 32 bits on the way, negative and
+    # non-integer values, and zero where the range starts above it
+    for base, opt, lo in ((["comp", "oligo", "-i", fa], "-k", 3), (["comp", "cgr", "-i", clean], "-k", 3), (["cov", "-i", fa], "-k", 7),
+                          (["cov", "-i", fa], "-m", 6), (["min", "-i", fa], "-m", 7), (["ctr", "-i", fa], "-k", 10), (["ctr", "-i", fa, "-k", "21"], "-m", 6)):
+        kind = "dir" if base[0] in ("cov", "ctr") else "file"
+        for v in (lo + 256, lo + 65536, lo + (1 << 32), lo + (1 << 64), -lo, "%d.0" % lo, "0x%x" % lo, ""):
+            probes.append((base + [opt, str(v)] if not str(v).startswith("-") else base + ["%s=%s" % (opt, v)], kind))
+    for base, opt in ((["cov", "-i", fa], "-s"), (["cov", "-i", fa], "-c")):
+        for v in (0, -5, 5 + (1 << 64), "5.5"):
+            probes.append((base + ["%s=%s" % (opt, v)], "dir"))
+    for base in (["comp", "oligo", "-i", fa], ["min", "-i", fa], ["ctr", "-i", fa, "-k", "12"]):
+        for v in (-1, 1 << 64, "two"):
+            probes.append((base + ["-t=%s" % v], "dir" if base[0] == "ctr" else "file"))
 
     def probe(item):
         args, kind = item
